@@ -703,6 +703,8 @@ def _rep(a, b):
 
 
 WITNESSES = [
+    ("epsilon inside the triple-distance logarithm", "batchie.scoring.gaussian_dbal",
+     _rep("            + distance_matrix[idx1, idx3]\n        )", "            + distance_matrix[idx1, idx3]\n            + np.finfo(float).tiny\n        )"), ["R13"]),
     ("d12 uses idx2 variance", "batchie.scoring.gaussian_dbal", _rep("d12 = padded_variances[:, idx3, :]", "d12 = padded_variances[:, idx2, :]"), ["R1"]),
     ("mask factor dropped from the normaliser", "batchie.scoring.gaussian_dbal", _rep("np.sum(mask[:, idx1, :] * 0.5 * np.log(1.0 / alpha), axis=-1)", "np.sum(0.5 * np.log(1.0 / alpha), axis=-1)"), ["R2"]),
     ("scorer pads variances with zero", "batchie.scoring.gaussian_dbal", _rep("            padded_variances = pad_ragged_arrays_to_dense_array(\n                per_plate_variances, pad_value=np.nan\n            )", "            padded_variances = pad_ragged_arrays_to_dense_array(\n                per_plate_variances, pad_value=0.0\n            )"), ["R2"]),
